@@ -73,11 +73,20 @@ func HonestSpec(rng *rand.Rand) *Spec {
 	var levels []Level
 	for n := rng.IntN(3); n > 0; n-- {
 		hi := match
-		hi.Sgx[rng.IntN(16)] = 255
-		if sgx.Comps[0] == 255 {
-			hi.PceSvn = 65535
+		switch k := 2 + rng.IntN(14); {
+		case rng.IntN(3) == 0 && tee[k] < 255:
+			// above the platform in ONE TDX component only (SGX components and PCE SVN are met)
+			hi.Tdx[k] = int(tee[k]) + 1
+		case rng.IntN(4) == 0 && sgx.PceSvn < 65535:
+			// above the platform in the PCE SVN only
+			hi.PceSvn = sgx.PceSvn + 1
+		default:
+			hi.Sgx[rng.IntN(16)] = 255
+			if sgx.Comps[0] == 255 {
+				hi.PceSvn = 65535
+			}
+			hi.Sgx[0] = sgx.Comps[0] + 1
 		}
-		hi.Sgx[0] = sgx.Comps[0] + 1
 		hi.Status = []string{"UpToDate", "OutOfDate", "Revoked"}[rng.IntN(3)]
 		levels = append(levels, hi)
 	}
